@@ -100,10 +100,36 @@ def build_programs(R):
     return progs
 
 
+def _replay_programs(R):
+    """the single program of a replay file ({"replay": {"app_module_source": .., "program": .., "klass": .., "spec": ..}}), or None"""
+    path = getattr(R, "replay", None)
+    if not path:
+        return None
+    try:
+        rp = json.load(open(path))["replay"]
+    except Exception:
+        return None
+    if not isinstance(rp, dict) or "app_module_source" not in rp:
+        return None
+    name = rp.get("program") or "r0"
+    meta = None
+    if rp.get("corpus"):
+        try:
+            meta = json.load(open(os.path.join(pxvlib.VERIF, "corpus", "e2e", rp["corpus"] + ".json")))
+        except Exception:
+            meta = None
+    return [{"name": name, "klass": rp.get("klass") or ("corpus" if rp.get("corpus") else "replay"), "spec": rp.get("spec"),
+             "corpus": rp.get("corpus"), "meta": meta, "src": rp["app_module_source"]}]
+
+
 def get_stage(R, keep_workspace=False):
     """Returns (observations: {name: obs}, info). Cached per (tree state, tier, seed, tooling)."""
     os.makedirs(SCRATCH, exist_ok=True)
     key = stage_key(R)
+    replay_progs = _replay_programs(R)
+    if replay_progs is not None:
+        # `--replay <file>`: the stage is the one program the replay file carries, run through the current compiler
+        key = "%s-replay-0-%s" % (pxvlib.repo_state().replace("+", "_"), hashlib.sha256(replay_progs[0]["src"].encode()).hexdigest()[:10])
     cache = os.path.join(SCRATCH, "stage-%s.json" % key)
     if os.path.exists(cache):
         with open(cache) as f:
@@ -138,9 +164,11 @@ def get_stage(R, keep_workspace=False):
                 continue
             for p, _ in entries:
                 shutil.rmtree(p, ignore_errors=True) if os.path.isdir(p) else os.unlink(p)
-        progs = build_programs(R)
+        progs = replay_progs if replay_progs is not None else build_programs(R)
         obs = {}
         info = {"key": key, "batches": [], "programs": len(progs)}
+        if replay_progs is not None:
+            info["replay"] = R.replay
         shared_target = os.path.join(SCRATCH, "ws-target-" + key)
         shared_home = os.path.join(SCRATCH, "ws-home-" + key)
         os.makedirs(shared_home, exist_ok=True)
